@@ -7,7 +7,8 @@
                        the shape (tO, t2, t1, t0) of traj.as_tensor() is derived: KTrajectory reduces every axis along which a
                        component repeats to a singleton, so an axis of as_tensor() is 1 iff all components are constant along it
      fi r o a b        AcqInfo array r over (other, k2, k1): r = 0 scan_counter (the acquisition id), r = 1..6 the idx labels
-                       average slice contrast phase repetition set, r = 7 center_sample; ish r is the shape of that array.
+                       average slice contrast phase repetition set, r = 7 center_sample, r = 8 the orientation of the readout (index of
+                       its read/phase/slice frame, proper or improper); ish r is the shape of that array.
    `lims` = length of the encoding limits of the six labels, encx / reconx = encoding / recon matrix size along x. *)
 From MrVerif Require Import Base.Prelude Base.Tensor.
 
@@ -196,7 +197,7 @@ Definition of_lists (shape : list Z) (data : list Z) (tshapes : list (list Z)) (
 (* trajectory broadcastable to the data, every AcqInfo array shaped (other, k2, k1) *)
 Definition traj_consistent (k : fds) : bool := negb (tbad k).
 Definition info_consistent (k : fds) : bool :=
-  forallb (fun r => let '(xo, x2, x1) := ish k r in (xo =? nO k) && (x2 =? n2 k) && (x1 =? n1 k)) (zrange 8).
+  forallb (fun r => let '(xo, x2, x1) := ish k r in (xo =? nO k) && (x2 =? n2 k) && (x1 =? n1 k)) (zrange 9).
 
 Definition tabulate (k : fds) :=
   ([nO k; nC k; n2 k; n1 k; n0 k],
@@ -206,5 +207,5 @@ Definition tabulate (k : fds) :=
     then map (fun m => tbuild [nO k; n2 k; n1 k; n0 k] (fun i => ft k m (nth 0 i 0) (nth 1 i 0) (nth 2 i 0) (nth 3 i 0))) (zrange 3)
     else []),
    map (fun r => let '(xo, x2, x1) := ish k r in
-                 ([xo; x2; x1], tbuild [xo; x2; x1] (fun i => fi k r (nth 0 i 0) (nth 1 i 0) (nth 2 i 0)))) (zrange 8),
+                 ([xo; x2; x1], tbuild [xo; x2; x1] (fun i => fi k r (nth 0 i 0) (nth 1 i 0) (nth 2 i 0)))) (zrange 9),
    (lims k, encx k, reconx k)).
